@@ -28,6 +28,29 @@
 
 #include "assert.h"
 
+#ifdef TBOX_VERIF
+//! verification hook (off unless -DTBOX_VERIF): under AddressSanitizer a block parked in the
+//! free list is poisoned past its link word, so any access to a freed pooled object is reported;
+//! it is unpoisoned again just before it is reused or handed back to ::free()
+# if defined(__SANITIZE_ADDRESS__)
+#  define TBOX_VERIF_POOL_ASAN 1
+# elif defined(__has_feature)
+#  if __has_feature(address_sanitizer)
+#   define TBOX_VERIF_POOL_ASAN 1
+#  endif
+# endif
+# ifdef TBOX_VERIF_POOL_ASAN
+#  include <sanitizer/asan_interface.h>
+#  define TBOX_VERIF_POOL_POISON(block) \
+    ASAN_POISON_MEMORY_REGION(reinterpret_cast<char*>(block) + sizeof(void*), sizeof(*(block)) - sizeof(void*))
+#  define TBOX_VERIF_POOL_UNPOISON(block) \
+    ASAN_UNPOISON_MEMORY_REGION(reinterpret_cast<char*>(block), sizeof(*(block)))
+# else
+#  define TBOX_VERIF_POOL_POISON(block)   ((void)(block))
+#  define TBOX_VERIF_POOL_UNPOISON(block) ((void)(block))
+# endif
+#endif
+
 namespace tbox {
 
 /**
@@ -83,6 +106,9 @@ class ObjectPool {
         //! 释放掉所有的空闲块
         while (free_header_ != nullptr) {
             auto next = free_header_->next;
+#ifdef TBOX_VERIF
+            TBOX_VERIF_POOL_UNPOISON(free_header_);
+#endif
             ::free(free_header_);
             free_header_ = next;
         }
@@ -105,6 +131,9 @@ class ObjectPool {
             //! 直接从空闲块链表取出一块
             free_header_ = block->next;
             --free_number_;
+#ifdef TBOX_VERIF
+            TBOX_VERIF_POOL_UNPOISON(block);
+#endif
         }
 
         TBOX_ASSERT(block != nullptr);
@@ -133,6 +162,9 @@ class ObjectPool {
             block->next = free_header_;
             free_header_ = block;
             ++free_number_;
+#ifdef TBOX_VERIF
+            TBOX_VERIF_POOL_POISON(block);
+#endif
 
             if (free_number_ > stat_.peak_free_number)
                 stat_.peak_free_number = free_number_;
